@@ -497,7 +497,18 @@ pub fn cells(out: &mut dyn Write) {
 }
 
 fn v_line(loc: Loc, rc: u8, ids: &[PropertyId], out: &mut dyn Write) {
-    let items: Vec<(PropertyId, usize)> = ids.iter().map(|i| (*i, 1usize)).collect();
+    // good values only; a repeated property gets a DIFFERENT good value on its second and later
+    // occurrences (byte-valued properties: 0, the others: the class-2 value)
+    let mut seen: Vec<PropertyId> = vec![];
+    let items: Vec<(PropertyId, usize)> = ids
+        .iter()
+        .map(|i| {
+            let again = seen.contains(i);
+            seen.push(*i);
+            let vc = if !again { 1 } else if matches!(shape(*i), Shape::Byte) { 0 } else { 2 };
+            (*i, vc)
+        })
+        .collect();
     let b = run_builder(loc, rc, &items);
     let (p, _) = run_parser(loc, rc, &items);
     let l = if ids.is_empty() {
